@@ -1,5 +1,5 @@
 """Query-family properties (C01, C02, C03, C19, ...): the P-model / S-model of the evaluator."""
-import re, collections
+import re, collections, json
 from qcase import coq_qcase, parse_rows, all_selected, cond_size, cond_ops, term_keys
 import gen_query
 
@@ -558,6 +558,23 @@ class C11(QueryFamily):
                 head.append(['var', rng.choice(keys)])
         rng.shuffle(head)
         c['sel'] = head[:4]
+        if rng.random() < 0.3:
+            # a NESTED constructor argument W(w=t): the registered W instances whose field equals t (0-2 of them per value)
+            objs_ = sorted({i for _, d in c['doms'] for i in d})
+            if rng.random() < 0.6:
+                c['wrappers'] = [rng.randint(0, 3) for _ in range(rng.randint(1, 5))]
+                inner = g.int_term(allow_lit=False)
+                while inner[0] == 'flat' or 'big' in json.dumps(inner):
+                    inner = g.int_term(allow_lit=False)
+            else:
+                c['wrappers'] = [{'o': rng.choice(objs_)} for _ in range(rng.randint(1, 5))] if objs_ else [0]
+                inner = ['var', rng.choice(keys)] if rng.random() < 0.7 else ['map', ['f', gen_query.F['peer']], ['var', rng.choice(keys)]]
+            ik = set()
+            term_keys(inner, ik)
+            # the variable of the nested argument is, half of the time, mentioned nowhere else in the head
+            pos = [j for j, t in enumerate(c['sel']) if t == ['var', min(ik)]] if rng.random() < 0.5 else []
+            j = pos[0] if pos else rng.randrange(len(c['sel']))
+            c['sel'][j] = ['nest', max(keys) + 10, inner]
         # make sure the shuffle/truncation kept every variable mentioned
         mentioned = set()
         for t in c['sel']:
@@ -585,14 +602,18 @@ class C11(QueryFamily):
             return rows
         return ('multiset', sorted(rows))
 
+    @staticmethod
+    def _tie(case, r):
+        # (a nested constructor argument is modelled as one more conjunct of the body: the ORDER of the instances is not modelled)
+        if isinstance(r, str):
+            return r
+        return ('multiset', sorted(r)) if any(t[0] == 'nest' for t in case['sel']) else ('seq', r)
+
     def canon(self, case, io):
-        r = parse_rows(io['off'])
-        tie = r if isinstance(r, str) else ('seq', r)
-        return tie, tuple(self.view(case, io[k], True) for k in self.observed())
+        return self._tie(case, parse_rows(io['off'])), tuple(self.view(case, io[k], True) for k in self.observed())
 
     def tie_view(self, case, mo):
-        r = parse_rows(mo)
-        return r if isinstance(r, str) else ('seq', r)
+        return self._tie(case, parse_rows(mo))
 
     def nontrivial(self, case, io):
         rows = parse_rows(io['off'])
